@@ -20,6 +20,7 @@ use crate::{
             sinclair::{SinclairJoyNum, SinclairKey},
         },
         keys::{CompoundKey, ZXKey},
+        memory::{Page, PAGE_SIZE},
         mouse::kempston::{KempstonMouseButton, KempstonMouseWheelDirection},
         tape::{Tap, TapeImpl},
         video::colors::ZXColor,
@@ -285,6 +286,14 @@ impl<H: Host> Emulator<H> {
             match action {
                 poke::PokeAction::Mem { addr, value } => {
                     self.controller.memory.force_write(addr, value);
+                    // keep the ULA's view of the screen memory in sync with poked RAM
+                    if let Page::Ram(bank) = self.controller.memory.get_page(addr) {
+                        self.controller.screen.update(
+                            addr % PAGE_SIZE as u16,
+                            bank as usize,
+                            value,
+                        );
+                    }
                 }
             }
         }
